@@ -84,6 +84,7 @@ Sealed(e) == e.bulk \o SealWords(e)
 NumWords(e) == Len(e.bulk) + Len(SealWords(e))
 IsEmpty(e) == IsFresh(e) /\ e.bulk = <<>>
 EncPos(e) == Len(e.bulk) + e.sitN                   \* Pos::pos().0
+EncClear(e) == EncNew                                \* RangeEncoder::clear(): a fresh encoder, in particular no held-back words
 
 (***************************************************************************)
 (* decoder                                                                   *)
